@@ -248,6 +248,17 @@ def run(chk):
         extra = sorted(k for k in got if k not in ORDER and k != "__base__")
         r1.require(not extra, f"{fit.key}|unpack-order", fit.where(), f"_fit must store exactly the five error metrics by name; also found {extra}")
         r1.require(got.get("__base__") == "base_0", f"{fit.key}|baseline-wRMSE", fit.where(), f"wRMSE_base must be the wRMSE (position 0) of the unsplit model; found {got.get('__base__')}")
+    # the statistics reported after a fit are those of *that* fit: the same object fitted a second time on other data (refit scenario)
+    from rules.daily_errors import refit_outcomes
+    ro = refit_outcomes(chk, dm, fit, gem)
+    if "raises" in ro:
+        r1.require(False, f"{fit.key}|refit", fit.where(), f"fitting the same model object a second time raises {ro['raises']}")
+    else:
+        for k, v in ro.items():
+            r1.require(v["ok"], f"{fit.key}|refit|{k}", fit.where(),
+                       f"after fitting the same DailyModel object a second time on other data, {'self.error[' + repr(k) + ']' if k != 'wRMSE_base' else 'self.wRMSE_base'} is {v['value']}"
+                       + (" — computed from the components of the *earlier* fit (state kept across fits is not reset)" if v["stale"] else " — not the statistic of the second fit's components"),
+                       sample={"scenario": "refit", "statistic": k})
 
     # ------------------------------------------------------------------ R16.2
     sd = chk.repo.try_func(MET, "_safe_divide")
